@@ -99,6 +99,7 @@ class GradientEvaluator(Evaluator):
         self.to_evaluate.extend(individual.children)
 
     def evaluate(self, individuals):
+        super().evaluate(individuals)
         for individual in individuals:
             self.add(individual)
         self.run()
